@@ -555,12 +555,24 @@ func c14Setter(c *engine.Ctx, t uint8, n int) {
 		c.Violate(fmt.Sprintf("getvalue/built/at%d", t), fmt.Sprintf("SetAttr(%d, %d octets) then GetValue gives %d octets", t, n, len(got.GetValue())), cs)
 		return
 	}
-	// the argument is copied
+	// the value read back is the value that was set, whatever the caller does with its buffer afterwards (RAND and
+	// AUTN sliced from one authentication vector that is wiped, a scratch buffer that is refilled): the message as
+	// encoded before and after must be the same, too
 	if n > 0 {
-		v[0] ^= 0xff
-		got2, _ := a.GetAttr(eap.EapAkaPrimeAttrType(t))
-		if bytes.Equal(got2.GetValue(), v) {
-			c.Note("SetAttr keeps a reference to its argument")
+		want := append([]byte(nil), v...)
+		before, berr := a.Marshal()
+		for i := range v {
+			v[i] ^= 0xff
+		}
+		got2, gerr2 := a.GetAttr(eap.EapAkaPrimeAttrType(t))
+		if gerr2 != nil || !bytes.Equal(got2.GetValue(), want) {
+			c.Violate(fmt.Sprintf("getvalue/changes-with-callers-buffer/at%d", t), fmt.Sprintf("SetAttr(%d, %d octets), then the caller overwrites its buffer: GetValue gives %x, set was %x", t, n, trunc(got2.GetValue(), 24), trunc(want, 24)), cs)
+			return
+		}
+		after, aerr := a.Marshal()
+		if (berr == nil) != (aerr == nil) || !bytes.Equal(before, after) {
+			c.Violate(fmt.Sprintf("encoding-changes-with-callers-buffer/at%d", t), fmt.Sprintf("SetAttr(%d, %d octets), Marshal, the caller overwrites its buffer, Marshal: %x then %x", t, n, trunc(before, 40), trunc(after, 40)), cs)
+			return
 		}
 	}
 	c.DistinctS(fmt.Sprint("setter", t, n))
